@@ -38,6 +38,54 @@ def strip_sizeof(s):
         i = j
 
 
+def probe_config(heads, defs, inc, work):
+    """returns (functions declared, twins probed) for one header configuration"""
+    cfg = ' '.join(defs) or 'default'
+    tu = os.path.join(work, 'tu.c')
+    with open(tu, 'w') as f:
+        for h in heads:
+            f.write('#include "a/%s"\n' % h)
+    r = run(['clang', '-fsyntax-only', '-I' + inc, '-Xclang', '-ast-dump=json', tu] + defs)
+    if r.returncode != 0:
+        emit({'t': 'broken', 'why': '[%s] the headers do not compile: %s' % (cfg, r.stderr[-300:])})
+        sys.exit(2)
+    funcs = {}
+    for n in json.loads(r.stdout)['inner']:
+        if n.get('kind') == 'FunctionDecl' and n.get('name', '').startswith('a_'):
+            funcs[n['name']] = len([x for x in n.get('inner', []) if x.get('kind') == 'ParmVarDecl'])
+    r = run(['gcc', '-E', '-dM', '-I' + inc, tu] + defs)
+    if r.returncode != 0:
+        emit({'t': 'broken', 'why': 'macro dump failed: ' + r.stderr[-300:]})
+        sys.exit(2)
+    twins = []
+    for line in r.stdout.splitlines():
+        m = re.match(r'#define\s+(\w+)\(([^)]*)\)', line)
+        if m and m.group(1) in funcs:
+            twins.append(m.group(1))
+    probed = 0
+    for name in sorted(twins):
+        k = funcs[name]
+        probe = os.path.join(work, 'probe.c')
+        with open(probe, 'w') as f:
+            for h in heads:
+                f.write('#include "a/%s"\n' % h)
+            f.write('VXPROBE_BEGIN %s(%s) VXPROBE_END\n' % (name, ', '.join('VXARG%d' % i for i in range(k))))
+        r = run(['gcc', '-E', '-P', '-I' + inc, probe] + defs)
+        probed += 1
+        item = {'function': name, 'params': k, 'config': cfg}
+        if r.returncode != 0:
+            emit({'t': 'viol', 'sig': 'twin|%s|arity|%s' % (name, cfg), 'what': '[%s] the header defines a function-like macro %s that does not accept the %d arguments of the function it shadows: %s' % (cfg, name, k, r.stderr.strip().splitlines()[-1] if r.stderr.strip() else ''), 'replay': {'job': JOB, 'input': item}})
+            continue
+        m = re.search(r'VXPROBE_BEGIN(.*)VXPROBE_END', r.stdout, re.S)
+        body = strip_sizeof(m.group(1)) if m else ''
+        for i in range(k):
+            c = len(re.findall(r'\bVXARG%d\b' % i, body))
+            if c != 1:
+                emit({'t': 'viol', 'sig': 'twin|%s|argument-evaluation|%s' % (name, cfg), 'what': '[%s] the header defines a function-like macro %s that shadows the function: a call %s(...) evaluates argument %d %d times (expansion: %s)' % (cfg, name, name, i + 1, c, ' '.join(body.split())[:200]), 'replay': {'job': JOB, 'input': item}})
+                break
+    return len(funcs), probed
+
+
 def main():
     global JOB
     ap = argparse.ArgumentParser()
@@ -48,57 +96,22 @@ def main():
     a, _ = ap.parse_known_args()
     JOB = a.job
     inc = os.path.join(REPO, 'include')
-    defs = [d for d in a.defs.split(',') if d]
+    base = [d for d in a.defs.split(',') if d]
     heads = [h for h in a.headers.split(',') if h]
+    # the headers' conditional sections: inline bodies on (default) and off, both real widths
+    configs = [base, base + ['-DA_HAVE_INLINE=0'], base + ['-DA_SIZE_REAL=4'], base + ['-DA_HAVE_INLINE=0', '-DA_SIZE_REAL=4']]
     work = tempfile.mkdtemp(prefix='twins-', dir=os.environ.get('VERIF_BUILD', os.path.join(os.path.dirname(os.path.abspath(__file__)), '..', 'build')))
+    nfuncs = nprobed = 0
     try:
-        tu = os.path.join(work, 'tu.c')
-        with open(tu, 'w') as f:
-            for h in heads:
-                f.write('#include "a/%s"\n' % h)
-        r = run(['clang', '-fsyntax-only', '-I' + inc, '-Xclang', '-ast-dump=json', tu] + defs)
-        if r.returncode != 0:
-            emit({'t': 'broken', 'why': 'the headers do not compile: ' + r.stderr[-300:]})
-            sys.exit(2)
-        funcs = {}
-        for n in json.loads(r.stdout)['inner']:
-            if n.get('kind') == 'FunctionDecl' and n.get('name', '').startswith('a_'):
-                funcs[n['name']] = len([x for x in n.get('inner', []) if x.get('kind') == 'ParmVarDecl'])
-        r = run(['gcc', '-E', '-dM', '-I' + inc, tu] + defs)
-        if r.returncode != 0:
-            emit({'t': 'broken', 'why': 'macro dump failed: ' + r.stderr[-300:]})
-            sys.exit(2)
-        twins = []
-        for line in r.stdout.splitlines():
-            m = re.match(r'#define\s+(\w+)\(([^)]*)\)', line)
-            if m and m.group(1) in funcs:
-                twins.append(m.group(1))
-        probed = 0
-        for name in sorted(twins):
-            k = funcs[name]
-            probe = os.path.join(work, 'probe.c')
-            with open(probe, 'w') as f:
-                for h in heads:
-                    f.write('#include "a/%s"\n' % h)
-                f.write('VXPROBE_BEGIN %s(%s) VXPROBE_END\n' % (name, ', '.join('VXARG%d' % i for i in range(k))))
-            r = run(['gcc', '-E', '-P', '-I' + inc, probe] + defs)
-            probed += 1
-            item = {'function': name, 'params': k}
-            if r.returncode != 0:
-                emit({'t': 'viol', 'sig': 'twin|%s|arity' % name, 'what': 'the header defines a function-like macro %s that does not accept the %d arguments of the function it shadows: %s' % (name, k, r.stderr.strip().splitlines()[-1] if r.stderr.strip() else ''), 'replay': {'job': JOB, 'input': item}})
-                continue
-            m = re.search(r'VXPROBE_BEGIN(.*)VXPROBE_END', r.stdout, re.S)
-            body = strip_sizeof(m.group(1)) if m else ''
-            for i in range(k):
-                c = len(re.findall(r'\bVXARG%d\b' % i, body))
-                if c != 1:
-                    emit({'t': 'viol', 'sig': 'twin|%s|argument-evaluation' % name, 'what': 'the header defines a function-like macro %s that shadows the function: a call %s(...) evaluates argument %d %d times (expansion: %s)' % (name, name, i + 1, c, ' '.join(body.split())[:200]), 'replay': {'job': JOB, 'input': item}})
-                    break
-        emit({'t': 'stat', 'k': 'evaluations', 'v': len(funcs) + probed})
-        emit({'t': 'stat', 'k': 'distinct_nontrivial', 'v': len(funcs)})
-        emit({'t': 'stat', 'k': 'functions_declared', 'v': len(funcs)})
-        emit({'t': 'stat', 'k': 'macro_twins_probed', 'v': probed})
-        emit({'t': 'done', 'exhaustive': True, 'note': 'every function declared by %s looked up among the function-like macros; %d twin(s) expanded' % (', '.join(heads), probed)})
+        for defs in configs:
+            f_, p_ = probe_config(heads, defs, inc, work)
+            nfuncs += f_
+            nprobed += p_
+        emit({'t': 'stat', 'k': 'evaluations', 'v': nfuncs + nprobed})
+        emit({'t': 'stat', 'k': 'distinct_nontrivial', 'v': nfuncs})
+        emit({'t': 'stat', 'k': 'functions_declared', 'v': nfuncs})
+        emit({'t': 'stat', 'k': 'macro_twins_probed', 'v': nprobed})
+        emit({'t': 'done', 'exhaustive': True, 'note': 'every function declared by %s looked up among the function-like macros in %d header configurations; %d twin(s) expanded' % (', '.join(heads), len(configs), nprobed)})
     finally:
         shutil.rmtree(work, ignore_errors=True)
 
